@@ -542,4 +542,59 @@ example : spliceSigned 127 = 127 ∧ spliceSigned 128 = -128 ∧ spliceSigned 0 
 example : exFull ≠ [] ∧ readBits exFull 5 1 = 1 ∧ posSplice exFull + 1 ≤ exFull.length
     ∧ byteD exFull (posSplice exFull) = 0xFE := by decide +kernel
 
+/-! #### evaluated instances of `never_outside_model_at` / `never_outside_ext_model_at` (second review)
+
+Each accessor's hypothesis `Af.… = .ok (.ok v)` holds on `exFull` / `exExt` (all flags set, everything
+fits), so each of the five (three) conjuncts is APPLIED, and what it returns — flag set, window at the
+closed-form position inside the field, value decoded from exactly those bytes — is compared with the
+evaluated positions `posOpcr exFull = 7`, `posSplice = 13`, `posPriv = 14`, `posExt = 17`. -/
+
+example : readBits exFull 3 1 = 1 ∧ 1 + 6 ≤ exFull.length
+    ∧ (⟨0x2468ACF1, 42⟩ : ClockRef) = clockOf ((exFull.drop 1).take 6) :=
+  (never_outside_model_at exFull (by decide)).1 ⟨0x2468ACF1, 42⟩ (by
+    rw [pcr_exact exFull (by decide), show (specAf exFull).pcr = .present ⟨0x2468ACF1, 42⟩ by decide +kernel]; rfl)
+
+example : readBits exFull 4 1 = 1 ∧ posOpcr exFull + 6 ≤ exFull.length
+    ∧ (⟨2, 261⟩ : ClockRef) = clockOf ((exFull.drop (posOpcr exFull)).take 6) :=
+  (never_outside_model_at exFull (by decide)).2.1 ⟨2, 261⟩ (by
+    rw [opcr_exact exFull (by decide), show (specAf exFull).opcr = .present ⟨2, 261⟩ by decide +kernel]; rfl)
+
+example : readBits exFull 5 1 = 1 ∧ posSplice exFull + 1 ≤ exFull.length
+    ∧ 0xFE = byteD exFull (posSplice exFull) :=
+  (never_outside_model_at exFull (by decide)).2.2.1 0xFE (by
+    rw [splice_exact exFull (by decide), show (specAf exFull).splice = .present 0xFE by decide +kernel]; rfl)
+
+example : readBits exFull 6 1 = 1 ∧ posPriv exFull + 1 + byteD exFull (posPriv exFull) ≤ exFull.length
+    ∧ [0xAA, 0xBB] = (exFull.drop (posPriv exFull + 1)).take (byteD exFull (posPriv exFull)) :=
+  (never_outside_model_at exFull (by decide)).2.2.2.1 [0xAA, 0xBB] (by
+    rw [private_exact exFull (by decide), show (specAf exFull).priv = .present [0xAA, 0xBB] by decide +kernel]; rfl)
+
+example : readBits exFull 7 1 = 1 ∧ posExt exFull + 1 + byteD exFull (posExt exFull) ≤ exFull.length
+    ∧ exExt = (exFull.drop (posExt exFull + 1)).take (byteD exFull (posExt exFull)) ∧ exExt ≠ [] :=
+  (never_outside_model_at exFull (by decide)).2.2.2.2 exExt (by
+    rw [extension_exact exFull (by decide), show (specAf exFull).ext = .present exExt by decide +kernel]; rfl)
+
+/-- the windows named above are where the docstring says: bytes 1..6, 7..12, 13, 15..16 (after the
+length byte at 14), 18..28 (after the length byte at 17) of the 29-byte field -/
+example : exFull.length = 29 ∧ posOpcr exFull = 7 ∧ posSplice exFull = 13 ∧ posPriv exFull = 14
+    ∧ byteD exFull 14 = 2 ∧ posExt exFull = 17 ∧ byteD exFull 17 = 11 := by decide +kernel
+
+example : readBits exExt 0 1 = 1 ∧ 1 + 2 ≤ exExt.length
+    ∧ (some 0x0123 : Option Nat) = ltwOf ((exExt.drop 1).take 2) :=
+  (never_outside_ext_model_at exExt (by decide)).1 (some 0x0123) (by
+    rw [ltw_exact exExt (by decide), show (specExt exExt).ltw = .present (some 0x0123) by decide +kernel]; rfl)
+
+example : readBits exExt 1 1 = 1 ∧ posPiecewise exExt + 3 ≤ exExt.length
+    ∧ 0x010203 = piecewiseOf ((exExt.drop (posPiecewise exExt)).take 3) :=
+  (never_outside_ext_model_at exExt (by decide)).2.1 0x010203 (by
+    rw [piecewise_exact exExt (by decide), show (specExt exExt).piecewise = .present 0x010203 by decide +kernel]; rfl)
+
+example : readBits exExt 2 1 = 1 ∧ posSeamless exExt + 5 ≤ exExt.length
+    ∧ seamlessOf ((exExt.drop (posSeamless exExt)).take 5) = .ok (5, 5512442692) :=
+  (never_outside_ext_model_at exExt (by decide)).2.2 (5, 5512442692) (by
+    rw [seamless_exact exExt (by decide),
+      show (specExt exExt).seamless = .present (.ok (5, 5512442692)) by rfl]; rfl)
+
+example : exExt.length = 11 ∧ posPiecewise exExt = 3 ∧ posSeamless exExt = 6 := by decide +kernel
+
 end Ts.Props.C13
